@@ -339,7 +339,13 @@ RollbackOp(b, k) ==
                        !.tmp.blob = IF SpBlobByName THEN @ ELSE s.blob]
   IN InvalidateSet(b3, IdxSet(b.tmp.index))
 
-RollbackDiff(snap, b) == {[clause |-> "rollback", obj |-> o] : o \in {o \in All : SnapH(hist, b)[o] # snap[o]}}
+\* what differs from the snapshot taken at the savepoint: ownership (or an object that cannot be loaded any more),
+\* or the value shown on access
+RollbackDiff(snap, b) ==
+  LET now == SnapH(hist, b)
+      D == {o \in All : now[o] # snap[o]}
+      owner(o) == now[o].own # snap[o].own \/ now[o].st = Unloadable
+  IN {[clause |-> IF owner(o) THEN "rollback-owner" ELSE "rollback-value", obj |-> o] : o \in D}
 Rollback(k) ==
   /\ Act /\ k \in 1..Len(sps)
   /\ LET b == IF sps[k].kind = "tmp" THEN RollbackOp(B, k)
@@ -509,7 +515,9 @@ ObsDerived == obs.seen = [o \in All |-> SeenH(hist, B, o)] /\ obs.pub = [o \in A
 
 Clause(c) == {m \in obs.mon : m.clause = c}
 \* C11
-NewDisowned == Clause("owned-uncommitted") = {} /\ Clause("state-lost") = {}
+NoOwnedUncommitted == Clause("owned-uncommitted") = {}
+NoStateLost == Clause("state-lost") = {}
+NewDisowned == NoOwnedUncommitted /\ NoStateLost
 AbortRestores == Clause("stale") = {} /\ Clause("dirty-idle") = {}         \* also: commit stored the final states
 CleanAfterCommit == Clause("serial") = {}
 NoStateAcrossReuse == Clause("leftover") = {}                               \* also: NothingLeftBehind (C12)
@@ -519,7 +527,9 @@ CommittedTogether ==
   [][(cm.pc = "voted" /\ Len(hist') = Len(hist) + 1) =>
        \A o \in All : (ob[o].own /\ (ob[o].flag = "changed" \/ CurIdx(o, cn.start) = 0)) => hist'[Len(hist')].w[o] # Absent]_vars
 \* C12
-RollbackRestores == Clause("rollback") = {}
+RollbackOwner == Clause("rollback-owner") = {}
+RollbackValue == Clause("rollback-value") = {}
+RollbackRestores == RollbackOwner /\ RollbackValue
 RollbackRestoresAct == [][\A k \in 1..Len(sps) : Rollback(k) => SnapH(hist, [ob |-> ob', cn |-> cn', tmp |-> tmp', sps |-> sps']) = sps[k].snap]_vars
 \* nothing becomes visible to another connection except by the final commit (or the other one's own commit)
 SavepointInvisible == [][hist' = hist \/ cm.pc = "voted" \/ (cm.pc = "idle" /\ hist'[Len(hist')].by = "o")]_vars
